@@ -347,6 +347,7 @@ func c18FeeQuoteHistory(c *mon.Ctx, h *c18Hist) {
 			ctr := int64(0)
 			newID := func() int64 { ctr++; return int64(g+1)<<24 | ctr }
 			held := map[string]*bt.FeeQuote{}
+			var owned *bt.FeeQuote
 			for k := 0; k < h.OpsEach; k++ {
 				yield(r)
 				op := r.Intn(16)
@@ -477,6 +478,17 @@ func c18FeeQuoteHistory(c *mon.Ctx, h *c18Hist) {
 						rec.add(c18Op{proc: g, kind: "FeeQuotes.UpdateMinerFees", key: "fee:" + m + ":" + string(t), write: true, val: id, call: call, ret: ret})
 					}
 				case 14: // FeeQuotes.Quote then Fee through the returned quote (known miners: the quote object is never replaced)
+					if rec.raw && owned != nil && r.Chance(1, 2) {
+						switch r.Intn(3) {
+						case 0:
+							owned.AddQuote(t, mkFee(t, newID()))
+						case 1:
+							owned.UpdateExpiry(time.Unix(expBase+int64(r.Intn(1000)), 0).UTC())
+						default:
+							_, _ = owned.Fee(t)
+						}
+						continue
+					}
 					if r.Chance(1, 6) { // look-ups that fail (a miner nobody ever added): an error path of a reader
 						switch r.Intn(3) {
 						case 0:
@@ -522,10 +534,17 @@ func c18FeeQuoteHistory(c *mon.Ctx, h *c18Hist) {
 						// raw histories only (no register semantics judged): a known miner is added again
 						// while handles to its earlier quote are still being read
 						m := prng.Pick(r, []string{"m0", "m1"})
-						if r.Bool() {
+						switch r.Intn(3) {
+						case 0:
 							fqs.AddMinerWithDefault(m)
-						} else {
+						case 1:
 							fqs.AddMiner(m, bt.NewFeeQuote())
+						default:
+							// the caller keeps its own handle to the quote it files and goes on updating
+							// it through that handle, while others read through the collection
+							q := bt.NewFeeQuote()
+							fqs.AddMiner(m, q)
+							owned = q
 						}
 						continue
 					}
